@@ -1,6 +1,7 @@
 import Sourmash.Lemmas.Json
 /-! Lemmas/JsonDescribe.lean — what `toJson` writes is, field by field, what a reader that only knows the
-published names (`SigFormat.describes`) expects for that state. -/
+published names (`SigFormat.describes`) expects for that state; and the sketch objects written for coherent states
+have no defect of their own (`SigFormat.sketchDefect`). -/
 namespace SigJson
 open SigFormat
 open Sourmash.Generated.C06
@@ -57,4 +58,62 @@ theorem describesSig_written (s : Signature) : describesSig (toJsonSig s) s = tr
       K.class_, K.email, K.hash_function, K.filename, K.name, K.license, K.signatures, K.version] <;>
     simpa using hsk
 
+/-! ### a written sketch object stands on its own (`SigFormat.sketchDefect`) -/
+
+theorem numsOf_u64s (l : List Nat) : numsOf (u64s l) = some l := by
+  simp only [numsOf, u64s]
+  induction l with
+  | nil => rfl
+  | cons x t ih => simp [List.mapM_cons, ih]
+
+theorem sketchDefect_written (m : MinHash) (h : Coherent m) :
+    sketchDefect (toJsonMH kmhSer m) = none := by
+  obtain ⟨-, n2, -, -, n5, n6, n7, -⟩ := str_names
+  have hs := h.sorted
+  have hmd := h.md5
+  cases hab : m.abunds with
+  | none =>
+    simp [sketchDefect, toJsonMH, serFields, kmhSer, mhField, SigFormat.get, n2, n5, n6, n7, hab,
+      numsOf_u64s, hs, hmd,
+      K.num, K.ksize, K.seed, K.max_hash, K.mins, K.md5sum, K.abundances, K.molecule]
+  | some a =>
+    have hal := h.aligned a hab
+    simp [sketchDefect, toJsonMH, serFields, kmhSer, mhField, SigFormat.get, n2, n5, n6, n7, hab,
+      numsOf_u64s, hs, hmd, hal,
+      K.num, K.ksize, K.seed, K.max_hash, K.mins, K.md5sum, K.abundances, K.molecule]
+
+theorem sketchDefect_toJsonSketch : ∀ sk : Sketch, CoherentSketch sk → sketchDefect (toJsonSketch sk) = none
+  | .vec m, h => sketchDefect_written m h
+  | .tree m, h => by rw [toJsonSketch, btreeSer_eq]; exact sketchDefect_written m h
+  | .hll .., h => h.elim
+
+theorem sketchObjects_written (sigs : List Signature) :
+    sketchObjects (toJson sigs) = sigs.map fun s => s.sketches.map toJsonSketch := by
+  obtain ⟨-, -, -, -, -, -, -, -, -, -, -, -, -, -, n15, -⟩ := str_names
+  simp only [sketchObjects, toJson, List.map_map]
+  apply List.map_congr_left
+  intro s _
+  cases s with
+  | mk cls email hf filename name license sketches version =>
+    cases filename <;> cases name <;>
+    simp [toJsonSig, G.sigFields, sigFields, sigField, optStrJson, SigFormat.get, n15,
+      K.class_, K.email, K.hash_function, K.filename, K.name, K.license, K.signatures, K.version]
+
+theorem documentDefect_written (sigs : List Signature) (which : List (List Bool))
+    (h : ∀ s ∈ sigs, ∀ sk ∈ s.sketches, CoherentSketch sk) : documentDefect (toJson sigs) which = none := by
+  have hnil : (((sketchObjects (toJson sigs)).zip which).flatMap fun p => (p.1.zip p.2).filterMap fun q =>
+      if q.2 then sketchDefect q.1 else none) = [] := by
+    rw [sketchObjects_written]
+    simp only [List.flatMap_eq_nil_iff, List.filterMap_eq_nil_iff]
+    intro p hp q hq
+    have hp1 := (List.of_mem_zip hp).1
+    have hq1 := (List.of_mem_zip hq).1
+    simp only [List.mem_map] at hp1
+    obtain ⟨s, hs, hps⟩ := hp1
+    rw [← hps] at hq1
+    simp only [List.mem_map] at hq1
+    obtain ⟨sk, hsk, hqsk⟩ := hq1
+    rw [← hqsk, sketchDefect_toJsonSketch sk (h s hs sk hsk)]
+    simp
+  simp only [documentDefect, hnil, List.head?_nil]
 end SigJson
